@@ -2,6 +2,11 @@
 
 package js
 
+import (
+	"github.com/tdewolff/parse/v2"
+	"github.com/tdewolff/parse/v2/js"
+)
+
 // Harness for C01, side effects are neither dropped nor reordered: host calls g1(), g2(), g3() are placed inside an
 // expression wrapper inside a statement context, or in declaration lists / parameter defaults. In every template the
 // calls are evaluated exactly once and in textual order, and every semantics-preserving rewrite keeps them so; the
@@ -123,4 +128,82 @@ func jcCallSeq2(b []byte) []byte {
 		}
 	}
 	return seq
+}
+
+// Directives. A directive prologue is the run of string-literal expression statements at the start of a script or
+// function body; "use strict" there changes the semantics of the whole body. The minifier may neither create nor drop
+// a directive: the oracle is the list of directive prologue statements the dependency's parser reports for the top
+// level and for the body of the (first) function, before and after.
+var jDirBodies = []string{
+	"(\"use strict\");return this", "(\"use strict\")", "((\"use strict\"));var v=this", "\"use strict\";return this", "\"use strict\";(\"use asm\");return this", ";\"use strict\";return this",
+	"(\"use strict\");var v=this;return v", "(\"use strict\");function g(){}", "(\"use strict\");if(a)return this", "('use strict');for(;;)break", "\"a\";(\"use strict\");var w", "(\"use strict\",0);var w",
+	"void\"use strict\";var w", "(\"use strict\");let w=this", "(\"use strict\");class A{}", "(\"use strict\");try{}finally{}",
+}
+
+func jDirectives(src []byte) (list []string, ok bool) {
+	ast, err := js.Parse(parse.NewInputBytes(src), js.Options{})
+	if err != nil {
+		return nil, false
+	}
+	collect := func(l []js.IStmt, tag string) {
+		for _, st := range l {
+			if d, isD := st.(*js.DirectivePrologueStmt); isD {
+				list = append(list, tag+string(d.Value))
+			}
+		}
+	}
+	collect(ast.List, "top:")
+	for _, st := range ast.List {
+		if fd, isF := st.(*js.FuncDecl); isF {
+			collect(fd.Body.List, "func:")
+			break
+		}
+	}
+	return list, true
+}
+
+// VerifJSDirective: 16 bodies x {script top level, function body, arrow body is excluded} x KeepVarNames.
+func VerifJSDirective(n int) {
+	body := jDirBodies[vChoice("body", len(jDirBodies))]
+	var src []byte
+	inFunc := vBool("infunc")
+	if inFunc {
+		src = append(append(append(src, "function m(a){"...), body...), '}')
+	} else {
+		// `return` is only valid in a function
+		for i := 0; i+6 <= len(body); i++ {
+			vAssume(body[i:i+6] != "return")
+		}
+		src = append(src, body...)
+	}
+	want, ok0 := jDirectives(src)
+	vAssume(ok0)
+	w := &vWriter{}
+	err := (&Minifier{KeepVarNames: vBool("keepvarnames")}).Minify(nil, w, &vReader{b: append([]byte(nil), src...)}, nil)
+	vReach("after-call")
+	vOutput("out", w.buf)
+	vAssert(err == nil, "accepted")
+	got, ok1 := jDirectives(append([]byte(nil), w.buf...))
+	vAssert(ok1, "output parses")
+	same := len(got) == len(want)
+	if same {
+		for i := range got {
+			if jDirNorm(got[i]) != jDirNorm(want[i]) {
+				same = false
+			}
+		}
+	}
+	vAssert(same, "same directive prologues: "+string(src)+" => "+string(w.buf))
+	vReach("end")
+}
+
+// jDirNorm: the quote character of a directive is free.
+func jDirNorm(s string) string {
+	b := []byte(s)
+	for i := range b {
+		if b[i] == '\'' {
+			b[i] = '"'
+		}
+	}
+	return string(b)
 }
